@@ -108,6 +108,10 @@ def r1_param_mutators(ctx):
             ctx.ob(ws.where, f"{qn}({p}): explicit assignment API may write into its argument", True, ws.stmt, definite=True)
             continue
         ok = (mod, qn, p) in ALLOWED_PARAM_MUTATORS
+        if not ok and name.startswith("_") and not name.startswith("__") and ctx.function_status(ws.where) == "new":
+            # a private helper that did not exist on the reference tree and writes into its argument: whether that is the caller's own memory is decided at its
+            # call sites, which the table of confirmed private mutators (R2) does not list yet
+            raise Unrecognised(f"{ws.where}: new private function {qn} writes into its argument `{p}` ([{ws.kind}] `{ws.stmt}`): its call sites are not in the confirmed table")
         ctx.ob(ws.where, f"{mod}:{qn} must not modify its argument `{p}` in place", ok,
                f"[{ws.kind}] `{ws.stmt}`" + (f" via {ws.via}" if ws.via else "") + ("" if ok else " -- the written memory is (a view/column of) the caller's object on some path"),
                key=f"C20-R1|{mod}|{qn}|{p}", definite=True)
@@ -250,7 +254,7 @@ def r4_cow_views_and_dead_writers(ctx):
     trys = [n for n in body_walk(ps.node) if isinstance(n, ast.Try)]
     ok = len(trys) == 1 and any(isinstance(h.type, ast.Name) and h.type.id == "ValueError" for h in trys[0].handlers) and \
         any(isinstance(x, ast.Assign) and u(x.targets[0]) == ps.params[1] and sym.canon(x.value) == f"{ps.params[1]}.copy()" for h in trys[0].handlers for x in h.body)
-    ctx.ob(ps.where, "the separator store falls back to a private copy when the view is read-only", ok, "", key="C20-R4|copy-fallback", definite=True)
+    ctx.ob(ps.where, "the separator store falls back to a private copy when the view is read-only", ok, "", key="C20-R4|copy-fallback")
 
 
 def r5_table_derivations(ctx):
